@@ -46,28 +46,84 @@ def J():
     return _state['jnp'], _state['sh'], _state['fourier'], _state['jnu']
 
 
+def own_axes(fast, M, L, R, C):
+    """Wavenumber axes, mask and the closed form of the recurrence weights computed here from the layout
+    conventions (independent of the implementation's modal_axes / mask / cached weight tables)."""
+    m = np.zeros(R, dtype=np.int64)
+    for i in range(R):
+        if fast: m[i] = (i // 2 if i % 2 == 0 else -(i // 2)) if i < 2 * M else 0
+        else: m[i] = 0 if i == 0 else ((i + 1) // 2 if i % 2 else -(i // 2))
+    l = np.array([j if j < L else 0 for j in range(C)], dtype=np.int64)
+    mask = np.abs(m)[:, None] <= l[None, :]
+    if fast:
+        mask = mask & (np.arange(R)[:, None] != 1) & (np.arange(R)[:, None] < 2 * M) & (np.arange(C)[None, :] < L)
+    a2 = [[Fraction(0)] * C for _ in range(R)]; b2 = [[Fraction(0)] * C for _ in range(R)]
+    for i in range(R):
+        for j in range(C):
+            if mask[i, j]:
+                mm, ll = int(abs(m[i])), int(l[j])
+                if j != 0: a2[i][j] = Fraction(ll * ll - mm * mm, 4 * ll * ll - 1)
+                if j != C - 1: b2[i][j] = Fraction((ll + 1) ** 2 - mm * mm, 4 * (ll + 1) ** 2 - 1)
+    return m, l, mask, a2, b2
+
+
+def own_nodes(nlon, nlat, spacing):
+    """Longitudes and sin(latitude) of the nodes from the grid definition (not from the implementation)."""
+    lon = 2 * np.pi * np.arange(nlon) / nlon
+    if spacing == 'gauss':
+        mu = np.polynomial.legendre.leggauss(nlat)[0]
+    elif spacing == 'equiangular':
+        mu = np.sin(-np.pi / 2 + (np.arange(nlat) + 0.5) * np.pi / nlat)
+    else:
+        mu = np.sin(-np.pi / 2 + np.arange(nlat) * np.pi / (nlat - 1))
+    return lon, mu
+
+
+def make_mesh(zxy):
+    import jax
+    z, x, y = zxy
+    return jax.sharding.Mesh(np.array(jax.devices()[:z * x * y]).reshape(z, x, y), ('z', 'x', 'y'))
+
+
 class G:
     """A grid of the implementation plus its tables."""
 
     def __init__(self, spec):
         jnp, sh, fourier, jnu = J()
-        impl = {'ref': sh.RealSphericalHarmonics,
-                'fast': functools.partial(sh.FastSphericalHarmonics, transform_precision='float32'),
-                'fast4': functools.partial(sh.FastSphericalHarmonics, base_shape_multiple=4,
-                                           transform_precision='float32')}[spec['impl']]
+        F = functools.partial(sh.FastSphericalHarmonics, transform_precision='float32')
+        impl = {'ref': sh.RealSphericalHarmonics, 'fast': F,
+                'fast4': functools.partial(F, base_shape_multiple=4),
+                'fast8': functools.partial(F, base_shape_multiple=8),
+                'fast4s': functools.partial(F, base_shape_multiple=4, stacked_fourier_transforms=True),
+                'fast_rev': functools.partial(F, reverse_einsum_arg_order=True, stacked_fourier_transforms=False),
+                'fastdef': sh.FastSphericalHarmonics}[spec['impl']]
         self.spec = spec
         self.fast = 0 if spec['impl'] == 'ref' else 1
         self.M, self.L = spec['M'], spec['L']
-        self.r = float(Fraction(spec['r']))
+        self.r = 1.0 if spec['r'] == 'None' else float(Fraction(spec['r']))
+        kw = {}
+        if spec.get('mesh'): kw['spmd_mesh'] = make_mesh(spec['mesh'])
         self.g = sh.Grid(longitude_wavenumbers=self.M, total_wavenumbers=self.L, longitude_nodes=spec['nlon'],
                          latitude_nodes=spec['nlat'], latitude_spacing=spec.get('spacing', 'gauss'),
-                         spherical_harmonics_impl=impl, radius=self.r)
+                         longitude_offset=float(spec.get('offset', 0.0)),
+                         spherical_harmonics_impl=impl, radius=(None if spec['r'] == 'None' else self.r), **kw)
         self.R, self.C = self.g.modal_shape
         a, b = self.g._derivative_recurrence_weights
         self.a = np.asarray(a, dtype=np.float64); self.b = np.asarray(b, dtype=np.float64)
         self.mask = np.asarray(self.g.mask)
         self.m = np.asarray(self.g.modal_axes[0]); self.l = np.asarray(self.g.modal_axes[1])
         self.nlon, self.nlat = spec['nlon'], spec['nlat']
+        # independent versions (layout conventions / grid definition), used as references by the oracles
+        self.own_m, self.own_l, self.own_mask, self.own_a2, self.own_b2 = own_axes(self.fast, self.M, self.L, self.R, self.C)
+        self.own_a = np.sqrt(np.array([[float(v) for v in row] for row in self.own_a2]))
+        self.own_b = np.sqrt(np.array([[float(v) for v in row] for row in self.own_b2]))
+        self.own_lon, self.own_mu = own_nodes(self.nlon, self.nlat, spec.get('spacing', 'gauss'))
+        self.own_eig = -(self.own_l * (self.own_l + 1)).astype(np.float64) / self.r ** 2
+
+    def own_cos(self):
+        """cos(lat) on the (padded) nodal latitude axis, from the grid definition."""
+        c = np.ones(self.g.nodal_shape[1]); c[:self.nlat] = np.sqrt(1 - self.own_mu ** 2)
+        return c
 
     def ints(self, clip=1, n=1):
         return [self.fast, self.M, self.L, self.R, self.C, int(clip), int(n)]
@@ -87,8 +143,41 @@ def grid(spec):
     return _state['grids'][key]
 
 
-def spec(impl, M, L, nlon, nlat, r='1', spacing='gauss'):
-    return {'impl': impl, 'M': M, 'L': L, 'nlon': nlon, 'nlat': nlat, 'r': r, 'spacing': spacing}
+def spec(impl, M, L, nlon, nlat, r='1', spacing='gauss', **extra):
+    d = {'impl': impl, 'M': M, 'L': L, 'nlon': nlon, 'nlat': nlat, 'r': r, 'spacing': spacing}
+    d.update(extra)
+    return d
+
+
+def extra_specs(tier):
+    """Grids for the spectral (modal-only) runners: sizes 1 and 2, default / extreme radii, longitude_nodes = 2(M-1),
+    more paddings, explicit Fourier options, longitude offset."""
+    s = [spec('ref', 1, 1, 4, 3, '7/3', spectral_only=1), spec('fast4', 1, 2, 4, 4, 'None', spectral_only=1),
+         spec('ref', 2, 3, 8, 6, 'None', spectral_only=1), spec('fast', 2, 2, 2, 3, '1/1000', spectral_only=1),
+         spec('ref', 4, 5, 6, 7, '6371220', spectral_only=1), spec('fast8', 3, 5, 10, 7, '1/1000', spectral_only=1)]
+    if tier != 'quick':
+        s += [spec('fast8', 5, 9, 8, 10, '6371220', spectral_only=1), spec('ref', 3, 9, 4, 10, '1/1000', spectral_only=1),
+              spec('fast', 1, 1, 4, 3, 'None', spectral_only=1), spec('fastdef', 22, 23, 64, 32, '6371220', spectral_only=1, big=1),
+              spec('ref', 22, 23, 64, 32, '7/3', spectral_only=1, big=1)]
+    return s
+
+
+def nodal_option_specs(tier):
+    """Grids for the nodal oracles with non-default transform options and a longitude offset."""
+    s = [spec('fast4s', 4, 5, 13, 7, '7/3', offset=0.25), spec('fast_rev', 3, 5, 10, 8, 'None')]
+    if tier != 'quick':
+        s += [spec('fast8', 4, 6, 13, 8, '7/3', offset=1.5), spec('fastdef', 4, 5, 13, 7, '1'),
+              spec('ref', 4, 5, 13, 7, '7/3', offset=0.25)]
+    return s
+
+
+def mesh_specs(tier):
+    s = [spec('fast', 4, 5, 13, 7, '7/3', mesh=[1, 2, 2]), spec('fast', 3, 5, 10, 7, 'None', mesh=[2, 2, 1])]
+    if tier != 'quick':
+        s += [spec('fast', 4, 5, 13, 7, '1', mesh=[1, 4, 2]), spec('fast', 4, 6, 13, 8, '7/3', mesh=[2, 2, 2]),
+              spec('fast', 3, 4, 10, 6, '7/3', mesh=[1, 3, 2]), spec('fast', 3, 4, 10, 6, '1', mesh=[2, 1, 2]),
+              spec('fast', 2, 3, 8, 6, '7/3', mesh=[1, 2, 4])]
+    return s
 
 
 def grid_specs(tier):
@@ -136,7 +225,6 @@ def generate(ctx):
         ctx.count('impl:%s' % sp['impl']); ctx.count('M=%d,L=%d' % (sp['M'], sp['L']))
         yield 'tables', {'grid': sp}
         yield 'onehot', {'grid': sp}
-        g = None
         for rep in range(2 if quick else 4):
             seed = int(rng.integers(0, 2 ** 31))
             yield 'random_ops', {'grid': sp, 'seed': seed, 'masked': rep % 2}
@@ -147,6 +235,34 @@ def generate(ctx):
             for rep in range(2 if quick else 4):
                 yield 'vecid', {'grid': sp, 'seed': int(rng.integers(0, 2 ** 31))}
         yield 'spectral_id', {'grid': sp, 'seed': int(rng.integers(0, 2 ** 31))}
+    # non-default transform options (stacked Fourier transforms, reversed einsum order, base multiple 8) and longitude offset:
+    # the nodal oracles
+    for sp in nodal_option_specs(ctx.tier):
+        ctx.count('impl:%s' % sp['impl']); ctx.count('offset=%s' % sp.get('offset', 0))
+        yield 'tables', {'grid': sp}
+        yield 'random_ops', {'grid': sp, 'seed': int(rng.integers(0, 2 ** 31)), 'masked': 1}
+        yield 'analytic', {'grid': sp}
+        yield 'vecid', {'grid': sp, 'seed': int(rng.integers(0, 2 ** 31))}
+        if not quick:
+            yield 'roundtrip_basis', {'grid': sp}
+    # modal-only grids: sizes 1 and 2, radius None / 1e-3 / Earth, longitude_nodes = 2(M-1), base_shape_multiple 8, T21
+    for sp in extra_specs(ctx.tier):
+        ctx.count('impl:%s' % sp['impl']); ctx.count('M=%d,L=%d' % (sp['M'], sp['L'])); ctx.count('radius=%s' % sp['r'])
+        yield 'tables', {'grid': sp}
+        if sp['M'] * sp['L'] <= 6 or (not quick and not sp.get('big')):
+            yield 'onehot', {'grid': sp}
+        yield 'random_ops', {'grid': sp, 'seed': int(rng.integers(0, 2 ** 31)), 'masked': 0}
+        yield 'spectral_id', {'grid': sp, 'seed': int(rng.integers(0, 2 ** 31))}
+    # argument forms (dtypes, views, ranks, pytrees, axes), purity / cached tables, device meshes
+    forms_grids = [spec('ref', 3, 4, 10, 6, '7/3'), spec('fast4', 3, 5, 10, 7, '7/3')]
+    for k, sp in enumerate(forms_grids):
+        bs = [[2], [1], [2, 3], [1, 2, 1], ['R'], ['C']]
+        yield 'forms', {'grid': sp, 'seed': int(rng.integers(0, 2 ** 31)), 'batches': bs[k::2] if quick else bs}
+        yield 'purity', {'grid': sp, 'seed': int(rng.integers(0, 2 ** 31))}
+    yield 'deriv_axes', {'seed': int(rng.integers(0, 2 ** 31)), 'shapes': [[5, 4, 7], [4, 6, 3]] if quick else [[5, 4, 7], [4, 6, 3], [7, 2, 5], [2, 7, 6], [1, 2, 3]]}
+    for sp in mesh_specs(ctx.tier):
+        ctx.count('mesh=%s' % (sp['mesh'],))
+        yield 'sharded', {'grid': sp, 'seed': int(rng.integers(0, 2 ** 31)), 'levels': [3, 1] if quick else [3, 1, 5, 8]}
 
 
 # ---------------------------------------------------------------------------
@@ -266,6 +382,18 @@ def r_tables(ctx, a):
                 ok = False; where = [k // C, k % C, float(v), str(q)]
         ctx.table_obligation('H_eps2: %s[m,l]^2 = closed rational form (rel 2^-50), same zero pattern' % nm, ok,
                              {'worst_rel': float(worst), 'first_bad': where})
+    # the model's closed form (regenerated from the source) against the formula written here:
+    # a^2 = mask (l^2-m^2)/(4l^2-1), a[:,0] = 0;  b^2 = mask ((l+1)^2-m^2)/(4(l+1)^2-1), b[:,-1] = 0
+    ctx.exact('closed form of a^2 (model, from the source) = (l^2-m^2)/(4l^2-1) on the mask', [str(v) for v in a2],
+              [str(v) for row in G_.own_a2 for v in row])
+    ctx.exact('closed form of b^2 (model, from the source) = ((l+1)^2-m^2)/(4(l+1)^2-1) on the mask', [str(v) for v in b2],
+              [str(v) for row in G_.own_b2 for v in row])
+    ctx.oracle_close('recurrence weight table a = sqrt of the closed form', G_.a, G_.own_a, scale=1.0, tol_rel=2.0 ** -48)
+    ctx.oracle_close('recurrence weight table b = sqrt of the closed form', G_.b, G_.own_b, scale=1.0, tol_rel=2.0 ** -48)
+    ctx.oracle('modal_axes / mask follow the documented layout', bool(np.array_equal(G_.m, G_.own_m) and np.array_equal(G_.l, G_.own_l)
+                                                                     and np.array_equal(G_.mask, G_.own_mask)), None)
+    ctx.oracle_close('laplacian_eigenvalues = -l(l+1)/radius^2', np.asarray(g.laplacian_eigenvalues, dtype=np.float64), G_.own_eig,
+                     scale=float(np.abs(G_.own_eig).max()) + 1e-300, tol_rel=2.0 ** -48)
     # H_b_shift: b[i,l] = a[i,l+1] exactly for l+1 < L
     ctx.table_obligation('H_b_shift: b[m,l] == a[m,l+1] for l+1 < L (exact floats)',
                          bool(np.array_equal(G_.b[:, :L - 1], G_.a[:, 1:L])), None)
@@ -338,20 +466,29 @@ def r_random_ops(ctx, a):
             cmp(ctx, '%s clip=%s' % (name, c), out, G_.call(ctx, cmd, x, y, clip=c))
     # spectral part of uv_nodal_to_vor_div_modal: the jitted function applied to nodal data vs the model applied
     # to the implementation's own transforms of u/cos, v/cos
-    if a['grid'].get('spacing') != 'equiangular_with_poles':
+    against_numpy(ctx, G_, x, y)
+    # identically zero input (state at rest): exact zeros out
+    z = np.zeros((R, C))
+    for name, (cmd, ar, fn) in ops.items():
+        out = np.asarray(fn(jnp.asarray(z), jnp.asarray(z), True))
+        ctx.oracle('%s of the zero field is exactly zero' % name, bool(np.all(out == 0)), None)
+    if a['grid'].get('spacing') != 'equiangular_with_poles' and not a['grid'].get('spectral_only'):
         g = G_.g
+        coslat = G_.own_cos()
+        ctx.oracle_close('Grid.cos_lat = sqrt(1 - sin(lat)^2) at the nodes of the grid definition', np.asarray(g.cos_lat), coslat,
+                         scale=1.0, tol_rel=2.0 ** -40)
         rng = np.random.Generator(np.random.PCG64(a['seed'] + 2))
         u = rng.integers(-8, 9, size=g.nodal_shape).astype(np.float64)
         v = rng.integers(-8, 9, size=g.nodal_shape).astype(np.float64)
         for c in (True, False):
             vor, div = sh.uv_nodal_to_vor_div_modal(g, jnp.asarray(u), jnp.asarray(v), clip=c)
-            um = np.asarray(g.to_modal(jnp.asarray(u) / g.cos_lat)); vm = np.asarray(g.to_modal(jnp.asarray(v) / g.cos_lat))
+            um = np.asarray(g.to_modal(jnp.asarray(u / coslat))); vm = np.asarray(g.to_modal(jnp.asarray(v / coslat)))
             cmp(ctx, 'uv_nodal_to_vor_div_modal (spectral part) clip=%s' % c, np.stack([np.asarray(vor), np.asarray(div)]),
                 G_.call(ctx, 21, um, vm, clip=c))
             # vor_div_to_uv_nodal = to_nodal(get_cos_lat_vector)/cos
             uu, vv = sh.vor_div_to_uv_nodal(g, jnp.asarray(x), jnp.asarray(y), clip=c)
             cu, cv = sh.get_cos_lat_vector(jnp.asarray(x), jnp.asarray(y), g, clip=c)
-            eu = np.asarray(g.to_nodal(cu) / g.cos_lat); ev = np.asarray(g.to_nodal(cv) / g.cos_lat)
+            eu = np.asarray(g.to_nodal(cu)) / coslat; ev = np.asarray(g.to_nodal(cv)) / coslat
             s = float(max(np.abs(eu).max(), np.abs(ev).max(), 1e-300))
             ctx.oracle_close('vor_div_to_uv_nodal = to_nodal(get_cos_lat_vector)/cos_lat', np.stack([np.asarray(uu), np.asarray(vv)]),
                              np.stack([eu, ev]), scale=s)
@@ -410,8 +547,11 @@ def r_analytic(ctx, a):
     jnp, sh, fourier, jnu = J()
     G_ = grid(a['grid']); g = G_.g; R, C, L = G_.R, G_.C, G_.L
     nlon, nlat = G_.nlon, G_.nlat
-    lon = np.asarray(g.nodal_axes[0])[:nlon] - g.longitude_offset
-    mu = np.asarray(g.nodal_axes[1])[:nlat]
+    # node coordinates from the grid definition (2 pi i / n; Gauss-Legendre / equiangular latitudes), not from the implementation
+    lon, mu = G_.own_lon, G_.own_mu
+    ctx.oracle_close('nodal_axes: longitudes 2 pi i/n + offset, sin(lat) of the stated spacing',
+                     np.concatenate([np.asarray(g.nodal_axes[0])[:nlon] - g.longitude_offset, np.asarray(g.nodal_axes[1])[:nlat]]),
+                     np.concatenate([lon, mu]), scale=1.0, tol_rel=2.0 ** -40)
     muq = [Fraction(float(v)) for v in mu]
     cos2 = 1 - mu ** 2
     gauss = a['grid'].get('spacing', 'gauss') == 'gauss'
@@ -431,7 +571,7 @@ def r_analytic(ctx, a):
     exp_d1 = np.zeros_like(Y); exp_dlon = np.zeros_like(Y); exp_d2 = np.zeros_like(Y)
     tol = 2.0 ** -36
     for t, (i, l) in enumerate(idx):
-        m = abs(int(G_.m[i]))
+        m = abs(int(G_.own_m[i]))
         q = legendre_q(l, m)
         A = cos2 ** (m / 2.0) * _peval(list(q), muq)                       # P_l^m(mu_j) up to sign/normalisation
         q1 = cosdtheta(q, m)
@@ -457,7 +597,7 @@ def r_analytic(ctx, a):
             upd('d1', n_d1[t], exp_d1[t], sc)
             upd('d2', n_d2[t], exp_d2[t], sc)
         if cos2.min() > 0:
-            lap_exp = np.outer(T, (A2 - m * m * A) / cos2) / G_.r ** 2
+            lap_exp = np.outer(T, (A2 - m * m * A) / cos2) / G_.r ** 2     # analytic: (d2/dlon2 + (cos d/dlat)^2)/(r cos)^2
             upd('lap', n_lap[t], lap_exp, sc * (l + 1) / G_.r ** 2)
     for key, txt in (('basis', 'H_basis_closed_form: to_nodal(e_ml) = c (1-mu^2)^(m/2) q_lm(mu) trig(m lambda)'),
                      ('dlon', 'H_dlon_analytic: to_nodal(d_dlon e_ml) = d/dlambda of the synthesised basis function'),
@@ -544,7 +684,8 @@ def r_vecid(ctx, a):
     Z = np.zeros((R, C))
     ctx.oracle_close('curl grad = 0', np.asarray(g.curl_cos_lat(grs)), Z, scale=sc)
     ctx.oracle_close('div of a rotated gradient = 0', np.asarray(g.div_cos_lat(g.k_cross(grs))), Z, scale=sc)
-    ctx.oracle_close('div grad = Laplacian', np.asarray(g.div_cos_lat(grs)), np.asarray(g.laplacian(psi)), scale=sc)
+    ctx.oracle_close('div grad = Laplacian', np.asarray(g.div_cos_lat(grs)), psi * G_.own_eig, scale=sc)
+    ctx.oracle_close('laplacian(x) = -l(l+1)/r^2 x', np.asarray(g.laplacian(psi)), psi * G_.own_eig, scale=sc)
     # wind round trip: default clip needs degree <= L-3; clip=(False, True) degree <= L-2
     for deg, ca in ((L - 3, True), (L - 2, False)):
         vor = _rand(G_, a['seed'] + 2, 1, deg=deg, zero_mean=True)
@@ -593,7 +734,7 @@ def r_spectral_id(ctx, a):
     r = G_.r
     for masked in (0, 1):
         x = _rand(G_, a['seed'] + masked, masked); y = _rand(G_, a['seed'] + 7 + masked, masked)
-        A, B = G_.a, G_.b
+        A, B = G_.own_a, G_.own_b          # closed-form weights computed in this plugin
         def mmu(z):
             z = np.asarray(z); out = np.zeros_like(z)
             out[:, :-1] += (A * z)[:, 1:]; out[:, 1:] += (B * z)[:, :-1]
@@ -602,8 +743,8 @@ def r_spectral_id(ctx, a):
         sc = float(np.abs(x).max()) * (L + 2) + 1e-300
         ctx.oracle_close('D2 = D1 - 2 M_mu', d2, d1 - 2 * mmu(x), scale=sc)
         # cos^2 identity for |m| <= l <= L-3
-        mm = np.abs(G_.m)[:, None].astype(np.float64)
-        lam = np.asarray(g.laplacian(x)) * r ** 2
+        mm = np.abs(G_.own_m)[:, None].astype(np.float64)
+        lam = x * G_.own_eig * r ** 2
         lhs = np.asarray(g.cos_lat_d_dlat(g.cos_lat_d_dlat(x))) - mm ** 2 * x
         rhs = lam - mmu(mmu(lam))
         # rows: unpadded, and not the structurally-zero "imaginary part of m = 0" row 1 of the fast layout
@@ -638,6 +779,254 @@ def r_spectral_id(ctx, a):
                      np.stack(sh.get_cos_lat_vector(x, y, g1)), scale=s)
 
 
+# ---------------------------------------------------------------------------
+# argument forms, purity, axes, device meshes
+# ---------------------------------------------------------------------------
+class NP:
+    """The documented operators written directly in numpy from the layout conventions and the closed-form weights
+    of this plugin (no implementation attribute is used): an independent reference for large / sharded grids."""
+
+    def __init__(self, G_):
+        self.G = G_; self.R, self.C, self.L = G_.R, G_.C, G_.L
+        self.l = G_.own_l.astype(np.float64); self.a = G_.own_a; self.b = G_.own_b; self.r = G_.r
+        i = np.arange(self.R)
+        self.j = (i // 2 if G_.fast else (i + 1) // 2).astype(np.float64)[:, None]
+        self.cos_row = ((i % 2 == 0) if G_.fast else (i % 2 == 1))[:, None]        # rows holding cos coefficients
+
+    @staticmethod
+    def _sh(x, k, axis):
+        out = np.zeros_like(x); n = x.shape[axis]
+        src = [slice(None)] * x.ndim; dst = [slice(None)] * x.ndim
+        if k > 0: src[axis] = slice(0, n - k); dst[axis] = slice(k, n)
+        else: src[axis] = slice(-k, n); dst[axis] = slice(0, n + k)
+        out[tuple(dst)] = x[tuple(src)]
+        return out
+
+    def dlon(self, x):      # cos row <- +j * sin row (next), sin row <- -j * cos row (previous)
+        return self.j * np.where(self.cos_row, self._sh(x, -1, -2), -self._sh(x, 1, -2))
+
+    def D1(self, x): return self._sh((self.l + 1) * self.a * x, -1, -1) + self._sh(-self.l * self.b * x, 1, -1)
+    def D2(self, x): return self._sh((self.l - 1) * self.a * x, -1, -1) + self._sh(-(self.l + 2) * self.b * x, 1, -1)
+    def lap(self, x): return x * self.G.own_eig
+    def invlap(self, x):
+        inv = np.zeros(self.C); inv[1:self.L] = 1.0 / self.G.own_eig[1:self.L]
+        return x * inv
+    def clip(self, x, c=True, n=1):
+        if not c: return x
+        keep = (np.arange(self.C) < self.L - n).astype(np.float64)
+        return x * keep
+    def grad(self, x, c=True): return np.stack([self.clip(self.dlon(x) / self.r, c), self.clip(self.D1(x) / self.r, c)])
+    def div(self, u, v, c=True): return self.clip((self.dlon(u) + self.D2(v)) / self.r, c)
+    def curl(self, u, v, c=True): return self.clip((self.dlon(v) - self.D2(u)) / self.r, c)
+    def getvec(self, vor, dv, c=True):
+        gs = self.grad(self.invlap(vor), c); gp = self.grad(self.invlap(dv), c)
+        return np.stack([gp[0] - gs[1], gp[1] + gs[0]])
+
+    def table(self):
+        return {'d_dlon': lambda x, y, c: self.dlon(x), 'cos_lat_d_dlat': lambda x, y, c: self.D1(x),
+                'sec_lat_d_dlat_cos2': lambda x, y, c: self.D2(x), 'laplacian': lambda x, y, c: self.lap(x),
+                'inverse_laplacian': lambda x, y, c: self.invlap(x), 'cos_lat_grad': lambda x, y, c: self.grad(x, c),
+                'k_cross': lambda x, y, c: np.stack([-y, x]), 'div_cos_lat': lambda x, y, c: self.div(x, y, c),
+                'curl_cos_lat': lambda x, y, c: self.curl(x, y, c), 'get_cos_lat_vector': lambda x, y, c: self.getvec(x, y, c)}
+
+
+def against_numpy(ctx, G_, x, y, what=''):
+    """every operator of the implementation against the numpy reference of this plugin"""
+    jnp = J()[0]
+    ref = NP(G_).table()
+    for name, (cmd, ar, fn) in ops_table(G_).items():
+        for c in ((True, False) if cmd in (16, 18, 19, 20) else (True,)):
+            want = ref[name](x, y, c)
+            ctx.oracle_close('%s clip=%s = the documented operator (numpy reference)%s' % (name, c, what),
+                             np.asarray(fn(jnp.asarray(x), jnp.asarray(y), c)), want, scale=float(np.abs(want).max()) + 1e-300)
+
+
+def _bits(z):
+    z = np.asarray(z)
+    return z.shape, z.dtype.str, z.tobytes()
+
+
+def r_forms(ctx, a):
+    """Integer / float32 / numpy / read-only / strided / Fortran-ordered inputs, ranks 3..5 with different content per
+    slice, batch sizes equal to R and C, size-1 batch, pytrees with scalars."""
+    jnp, sh, fourier, jnu = J()
+    G_ = grid(a['grid']); g = G_.g; R, C, L = G_.R, G_.C, G_.L
+    rng = np.random.Generator(np.random.PCG64(a['seed']))
+    xi = rng.integers(-8, 9, size=(R, C)); yi = rng.integers(-8, 9, size=(R, C))
+    x = xi.astype(np.float64); y = yi.astype(np.float64)
+    ops = ops_table(G_)
+    ref = {}
+    for name, (cmd, ar, fn) in ops.items():
+        ref[name] = np.asarray(fn(jnp.asarray(x), jnp.asarray(y), True))
+        sc = float(np.abs(ref[name]).max()) + 1e-300
+        # integer-typed arrays against the model
+        for dt in (np.int64, np.int32):
+            out = np.asarray(fn(jnp.asarray(xi.astype(dt)), jnp.asarray(yi.astype(dt)), True))
+            cmp(ctx, '%s on %s input' % (name, np.dtype(dt).name), out, G_.call(ctx, cmd, x, y, clip=True))
+        # float32 input (x64 mode): float32 accuracy
+        out = np.asarray(fn(jnp.asarray(x, dtype=jnp.float32), jnp.asarray(y, dtype=jnp.float32), True))
+        ctx.oracle_close('%s on float32 input agrees with float64 to float32 accuracy' % name, out, ref[name], scale=sc, tol_rel=2.0 ** -20)
+        # numpy (not jax) inputs in several memory forms: bit-identical
+        ro_x, ro_y = x.copy(), y.copy(); ro_x.setflags(write=False); ro_y.setflags(write=False)
+        big_x = np.full((2 * R, 3 * C), 99.0); big_x[::2, 1::3] = x
+        big_y = np.full((2 * R, 3 * C), -99.0); big_y[::2, 1::3] = y
+        for form, (fx, fy) in {'numpy': (x.copy(), y.copy()), 'read-only numpy': (ro_x, ro_y),
+                               'strided view': (big_x[::2, 1::3], big_y[::2, 1::3]),
+                               'Fortran order': (np.asfortranarray(x), np.asfortranarray(y))}.items():
+            out = np.asarray(fn(fx, fy, True))
+            ctx.oracle('%s: %s input gives the same result' % (name, form), _bits(out) == _bits(ref[name]),
+                       {'max_abs_diff': float(np.abs(out - ref[name]).max()) if out.shape == ref[name].shape else 'shape'})
+        ctx.oracle('%s does not modify its numpy inputs' % name, bool(np.array_equal(big_x[::2, 1::3], x) and np.array_equal(big_y[::2, 1::3], y)
+                                                                      and big_x[1, 0] == 99.0), None)
+        # ranks / batch axes with different content per slice
+        for bshape in [tuple({'R': R, 'C': C}.get(t, t) for t in b) for b in a['batches']]:
+            xb = rng.integers(-8, 9, size=bshape + (R, C)).astype(np.float64)
+            yb = rng.integers(-8, 9, size=bshape + (R, C)).astype(np.float64)
+            for c in ((True, False) if cmd in (16, 18, 19, 20) else (True,)):
+                out = np.asarray(fn(jnp.asarray(xb), jnp.asarray(yb), c))
+                two = out.ndim == xb.ndim + 1            # stacked pairs: leading axis 2
+                first = True
+                for idx in np.ndindex(*bshape):
+                    o = out[(slice(None),) + idx] if two else out[idx]
+                    if bshape == (2,) or (first and bshape in ((R,), (C,))):
+                        cmp(ctx, '%s clip=%s batch %s slice %s' % (name, c, bshape, idx), o, G_.call(ctx, cmd, xb[idx], yb[idx], clip=c))
+                    else:
+                        single = np.asarray(fn(jnp.asarray(xb[idx]), jnp.asarray(yb[idx]), c))
+                        ctx.oracle_close('%s clip=%s: slice %s of a batch %s = the operator on that slice' % (name, c, idx, bshape),
+                                         o, single, scale=float(np.abs(single).max()) + 1e-300)
+                    first = False
+    # clip_wavenumbers: pytrees with python scalars, n as keyword, rank 3
+    xb = rng.integers(-8, 9, size=(2, R, C)).astype(np.float64)
+    for n in (1, 2, L):
+        tree = {'a': jnp.asarray(x), 'b': (jnp.asarray(xb), 2.5), 'c': [jnp.asarray(yi)]}
+        out = g.clip_wavenumbers(tree, n=n)
+        cmp(ctx, 'clip_wavenumbers(pytree) n=%d leaf a' % n, np.asarray(out['a']), G_.call(ctx, 15, x, n=n), onehot=True)
+        for k in range(2):
+            cmp(ctx, 'clip_wavenumbers(pytree) n=%d leaf b[%d]' % (n, k), np.asarray(out['b'][0])[k], G_.call(ctx, 15, xb[k], n=n), onehot=True)
+        cmp(ctx, 'clip_wavenumbers(pytree) n=%d integer leaf' % n, np.asarray(out['c'][0]), G_.call(ctx, 15, y, n=n), onehot=True)
+        ctx.exact('clip_wavenumbers(pytree): python scalar leaf passes through', [float(out['b'][1])], [2.5])
+
+
+def r_purity(ctx, a):
+    """The same grid object evaluated repeatedly, interleaved with other inputs and other grids: bit-identical results,
+    cached tables never modified; radius is a jit-static difference."""
+    jnp, sh, fourier, jnu = J()
+    G_ = grid(a['grid']); g = G_.g; R, C, L = G_.R, G_.C, G_.L
+    rng = np.random.Generator(np.random.PCG64(a['seed']))
+    x = rng.integers(-8, 9, size=(R, C)).astype(np.float64); y = rng.integers(-8, 9, size=(R, C)).astype(np.float64)
+    x2 = rng.integers(-8, 9, size=(R, C)).astype(np.float64)
+    def tables():
+        t = {'laplacian_eigenvalues': g.laplacian_eigenvalues, 'a': g._derivative_recurrence_weights[0],
+             'b': g._derivative_recurrence_weights[1], 'mask': g.mask, 'm': g.modal_axes[0], 'l': g.modal_axes[1],
+             'cos_lat': g.cos_lat, 'sec2_lat': g.sec2_lat, 'f': g.spherical_harmonics.basis.f, 'p': g.spherical_harmonics.basis.p,
+             'w': g.spherical_harmonics.basis.w}
+        return {k: _bits(np.array(v, copy=True)) for k, v in t.items()}
+    before = tables()
+    ops = ops_table(G_)
+    order = list(ops)
+    first = {}
+    for name in order:
+        first[name] = _bits(ops[name][2](jnp.asarray(x), jnp.asarray(y), True))
+    for name in reversed(order):                       # other inputs in between, reversed order
+        ops[name][2](jnp.asarray(x2), jnp.asarray(x), False)
+        again = _bits(ops[name][2](jnp.asarray(x), jnp.asarray(y), True))
+        ctx.oracle('%s: repeated evaluation (interleaved with other inputs) is bit-identical' % name, again == first[name], None)
+    # the jitted nodal wrappers: this grid, a grid differing ONLY in the radius, this grid again (and the other order)
+    spo = dict(a['grid']); spo['r'] = '5/2' if a['grid']['r'] != '5/2' else '1'
+    Go = grid(spo); go = Go.g
+    u = rng.integers(-8, 9, size=g.nodal_shape).astype(np.float64); v = rng.integers(-8, 9, size=g.nodal_shape).astype(np.float64)
+    res = {}
+    for tag, gg in (('A1', g), ('B1', go), ('A2', g), ('B2', go)):
+        vd = sh.uv_nodal_to_vor_div_modal(gg, jnp.asarray(u), jnp.asarray(v))
+        uv = sh.vor_div_to_uv_nodal(gg, jnp.asarray(x), jnp.asarray(y))
+        res[tag] = (np.stack([np.asarray(t) for t in vd]), np.stack([np.asarray(t) for t in uv]))
+    ctx.oracle('nodal wrappers: grid A before and after a call with a grid differing only in the radius: bit-identical',
+               _bits(res['A1'][0]) == _bits(res['A2'][0]) and _bits(res['A1'][1]) == _bits(res['A2'][1]), None)
+    ctx.oracle('nodal wrappers: grid B (other radius) repeated: bit-identical',
+               _bits(res['B1'][0]) == _bits(res['B2'][0]) and _bits(res['B1'][1]) == _bits(res['B2'][1]), None)
+    k = Go.r / G_.r
+    ctx.oracle_close('uv_nodal_to_vor_div_modal with radius k*r = (1/k) * radius r (radius is not confused by the jit cache)',
+                     res['B1'][0] * k, res['A1'][0], scale=float(np.abs(res['A1'][0]).max()) + 1e-300)
+    ctx.oracle_close('vor_div_to_uv_nodal with radius k*r = k * radius r', res['B1'][1] / k, res['A1'][1],
+                     scale=float(np.abs(res['A1'][1]).max()) + 1e-300)
+    after = tables()
+    for kname in before:
+        ctx.oracle('cached table %s is not modified by any call' % kname, before[kname] == after[kname], None)
+    # model anchor after everything ran: laplacian / inverse_laplacian still right
+    cmp(ctx, 'laplacian after the call sequence', np.asarray(g.laplacian(jnp.asarray(x))), G_.call(ctx, 13, x))
+    cmp(ctx, 'inverse_laplacian after the call sequence', np.asarray(g.inverse_laplacian(jnp.asarray(x))), G_.call(ctx, 14, x))
+
+
+def r_deriv_axes(ctx, a):
+    """fourier derivatives and shift along other axes (-1, -3; positive axes for shift), argument validation."""
+    jnp, sh, fourier, jnu = J()
+    rng = np.random.Generator(np.random.PCG64(a['seed']))
+    for shape in [tuple(t) for t in a['shapes']]:
+        x = rng.integers(-9, 10, size=shape).astype(np.float64)
+        for axis in (-1, -2, -3):
+            n = shape[axis]
+            flat = np.moveaxis(x, axis, 0).reshape(n, -1)
+            if n % 2:
+                out = np.asarray(fourier.real_basis_derivative(jnp.asarray(x), axis=axis))
+                m = ctx.model.call(4, [0, 0, 0, n, flat.shape[1], 0, 0], [[1], [], [], flat.ravel(), []])
+                cmp(ctx, 'real_basis_derivative shape=%s axis=%d' % (shape, axis), np.moveaxis(out, axis, 0).reshape(n, -1), m)
+            else:
+                for off in (0, 4):
+                    out = np.asarray(fourier.real_basis_derivative_with_zero_imag(jnp.asarray(x), axis, off))
+                    m = ctx.model.call(4, [1, 0, 0, n, flat.shape[1], 0, off], [[1], [], [], flat.ravel(), []])
+                    cmp(ctx, 'real_basis_derivative_with_zero_imag shape=%s axis=%d off=%d' % (shape, axis, off),
+                        np.moveaxis(out, axis, 0).reshape(n, -1), m)
+            for sax in (axis, x.ndim + axis):           # negative and the equivalent positive axis
+                for off in (-1, 1, 2, -n + 1):
+                    out = np.asarray(jnu.shift(jnp.asarray(x), off, axis=sax))
+                    for (idx, col), (_, ocol) in zip(util.columns(x, sax), util.columns(out, sax)):
+                        if idx and sum(idx) % 3: continue
+                        cmp(ctx, 'shift axis=%d offset=%d' % (sax, off), ocol, ctx.model.call(0, [n, off], [col]), onehot=True)
+    # validation: parity of the axis length and the sign of `axis`
+    def raises(f):
+        try:
+            f(); return 0
+        except ValueError:
+            return 1
+    xe = jnp.zeros((4, 3)); xo = jnp.zeros((5, 3))
+    ctx.exact('real_basis_derivative rejects even length / non-negative axis; accepts odd length',
+              [raises(lambda: fourier.real_basis_derivative(xe, axis=-2)), raises(lambda: fourier.real_basis_derivative(xo, axis=0)),
+               raises(lambda: fourier.real_basis_derivative(xo, axis=-2))], [1, 1, 0])
+    ctx.exact('real_basis_derivative_with_zero_imag rejects odd length / non-negative axis; accepts even length',
+              [raises(lambda: fourier.real_basis_derivative_with_zero_imag(xo, axis=-2)),
+               raises(lambda: fourier.real_basis_derivative_with_zero_imag(xe, axis=0)),
+               raises(lambda: fourier.real_basis_derivative_with_zero_imag(xe, axis=-2))], [1, 1, 0])
+
+
+def r_sharded(ctx, a):
+    """The modal operators on a grid with a device mesh (padding multiple 8 per shard, d_dlon through shard_map with a
+    per-shard frequency offset, vertical padding when the level count is not divisible by z) against the model."""
+    jnp, sh, fourier, jnu = J()
+    import jax
+    z, xs, ys = a['grid']['mesh']
+    if len(jax.devices()) < z * xs * ys:
+        ctx.count('sharded skipped: not enough devices'); return
+    G_ = grid(a['grid']); g = G_.g; R, C, L = G_.R, G_.C, G_.L
+    rng = np.random.Generator(np.random.PCG64(a['seed']))
+    x = rng.integers(-8, 9, size=(R, C)).astype(np.float64); y = rng.integers(-8, 9, size=(R, C)).astype(np.float64)
+    ctx.exact('modal shape on the mesh', [R, C], [int(-(-2 * G_.M // (16 * xs)) * 16 * xs), int(-(-L // (8 * ys)) * 8 * ys)])
+    cmp(ctx, 'd_dlon on mesh %s' % (a['grid']['mesh'],), np.asarray(g.d_dlon(jnp.asarray(x))), G_.call(ctx, 10, x))
+    against_numpy(ctx, G_, x, y, ' on mesh %s' % (a['grid']['mesh'],))
+    ref = NP(G_)
+    for k in a['levels']:
+        xb = rng.integers(-8, 9, size=(k, R, C)).astype(np.float64)
+        out = np.asarray(g.d_dlon(jnp.asarray(xb)))
+        ctx.exact('d_dlon keeps the shape with %d levels on mesh %s' % (k, a['grid']['mesh']), list(out.shape), [k, R, C])
+        if out.shape == xb.shape:
+            ctx.oracle_close('d_dlon with %d levels on mesh %s = the documented operator (numpy reference)' % (k, a['grid']['mesh']),
+                             out, ref.dlon(xb), scale=float(np.abs(xb).max()) * G_.M + 1e-300)
+            if k == a['levels'][0]:
+                cmp(ctx, 'd_dlon level %d of %d on mesh %s' % (k - 1, k, a['grid']['mesh']), out[k - 1], G_.call(ctx, 10, xb[k - 1]))
+        gl = np.asarray(jnp.stack(g.cos_lat_grad(jnp.asarray(xb))))
+        want = np.stack([ref.grad(xb[t]) for t in range(k)], axis=1)
+        ctx.oracle_close('cos_lat_grad with %d levels on mesh = numpy reference' % k, gl, want, scale=float(np.abs(want).max()) + 1e-300)
+
+
 def r_wrappers_fine(ctx, a):
     """vor/div -> wind -> vor/div on grids with many nodes and a tiny truncation (oracle on the implementation)."""
     jnp, sh, fourier, jnu = J()
@@ -651,7 +1040,8 @@ def r_wrappers_fine(ctx, a):
         vor = rng.integers(-8, 9, size=(2,) + tuple(g.modal_shape)).astype(np.float64) / 8 * ok
         div = rng.integers(-8, 9, size=(2,) + tuple(g.modal_shape)).astype(np.float64) / 8 * ok
         cu, cv = sh.get_cos_lat_vector(jnp.asarray(vor), jnp.asarray(div), g, clip=True)
-        want_u = np.asarray(g.to_nodal(cu)) / np.asarray(g.cos_lat); want_v = np.asarray(g.to_nodal(cv)) / np.asarray(g.cos_lat)
+        coslat = np.ones(g.nodal_shape[1]); coslat[:a['J']] = np.sqrt(1 - own_nodes(a['I'], a['J'], a['spacing'])[1] ** 2)
+        want_u = np.asarray(g.to_nodal(cu)) / coslat; want_v = np.asarray(g.to_nodal(cv)) / coslat
         u, v = sh.vor_div_to_uv_nodal(g, jnp.asarray(vor), jnp.asarray(div))
         sc = max(float(np.abs(want_u).max()), float(np.abs(want_v).max()), 1e-300)
         ctx.oracle_close('vor_div_to_uv_nodal = to_nodal(get_cos_lat_vector)/cos_lat on a fine grid (%s)' % a['spacing'],
@@ -670,4 +1060,5 @@ def r_jit_static(ctx, a):
 
 RUNNERS = {'wrappers_fine': r_wrappers_fine, 'jit_static': r_jit_static, 'shift': r_shift, 'shift2d': r_shift2d, 'clip_reject': r_clip_reject, 'fourier_deriv': r_fourier_deriv,
            'tables': r_tables, 'onehot': r_onehot, 'random_ops': r_random_ops, 'analytic': r_analytic,
-           'sec2_hyp': r_sec2_hyp, 'vecid': r_vecid, 'roundtrip_basis': r_roundtrip_basis, 'spectral_id': r_spectral_id}
+           'sec2_hyp': r_sec2_hyp, 'vecid': r_vecid, 'roundtrip_basis': r_roundtrip_basis, 'spectral_id': r_spectral_id,
+           'forms': r_forms, 'purity': r_purity, 'deriv_axes': r_deriv_axes, 'sharded': r_sharded}
